@@ -39,7 +39,7 @@ SpecAction(e) ==
     [] c.op = "copy"         -> CopyCtor
     [] c.op = "append"       -> AppendV(c.kind, e.a, 0)
     [] c.op = "extend"       -> ExtendV(e.a, 0)
-    [] c.op = "extend_wrong" -> ExtendWrong
+    [] c.op = "extend_wrong" -> ExtendWrong(c.what)
     [] c.op = "insert"       -> InsertV(c.i, c.kind, e.a, 0)
     [] c.op = "pop"          -> DoPop(c.i)
     [] c.op = "pop0"         -> PopDefault
